@@ -39,7 +39,7 @@ theorem C02_progress (sync : Bool) (cap : Nat) (untilW : Bool) (acts : List (Act
     (hr : run (init sync cap untilW) acts = some s)
     (hbusy : s.pendingCas > 0 ∨ s.execPending > 0 ∨ s.snd.isSome ∨ s.lingering ≠ []) :
     ∃ a : Act α, (step s a).isSome = true ∧
-      (match a with | .enqueue _ => False | .noSpace => False | .lock => False | .closeCas => False | _ => True) := by
+      (match a with | .beginWrite => False | .rejectWrite => False | .enqueue _ => False | .noSpace => False | .abortCtx => False | .abortClosed => False | .lock => False | .closeCas => False | _ => True) := by
   have hinv := inv_run acts _ s (inv_init sync cap untilW) hr
   rcases hbusy with h | h | h | h
   · refine ⟨.casWriter, ?_, trivial⟩
@@ -76,7 +76,8 @@ theorem C02_progress (sync : Bool) (cap : Nat) (untilW : Bool) (acts : List (Act
       | len1 => exact ⟨.sndLen1, by simp [step, hs], trivial⟩
       | flush => exact ⟨.sndFlush true, by simp [step, hs], trivial⟩
       | store => exact ⟨.sndStore, by simp [step, hs], trivial⟩
-      | failed => exact ⟨.sndFailStore, by simp [step, hs], trivial⟩
+      | failed => exact ⟨.sndFailMark, by simp [step, hs], trivial⟩
+      | failedStore => exact ⟨.sndFailStore, by simp [step, hs], trivial⟩
   · cases hl : s.lingering with
     | nil => exact absurd hl h
     | cons l ls =>
@@ -108,8 +109,8 @@ def runNoRecheck (s : St Nat) : List (Act Nat) → Option (St Nat)
 
 theorem C02_recheck_is_necessary :
     (runNoRecheck (init false 2 true)
-      [.enqueue 1, .casWriter, .exec, .sndRecv, .sndDefault, .sndWritev true, .sndPut, .sndLen1,
-       .enqueue 2, .casWriter, .sndFlush true, .sndStore]).map (fun s => (s.q, s.quiescent)) = some ([2], true) := by
+      [.beginWrite, .enqueue 1, .casWriter, .exec, .sndRecv, .sndDefault, .sndWritev true, .sndPut, .sndLen1,
+       .beginWrite, .enqueue 2, .casWriter, .sndFlush true, .sndStore]).map (fun s => (s.q, s.quiescent)) = some ([2], true) := by
   decide
 
 end NettyVerif.C02
